@@ -9,7 +9,7 @@ DEFAULTS = dict(
     p_opt_existing=.15, p_single_opt=.06, p_dup_id=0.0,
     n_incompat=(0, 2), p_incompat=.5,
     p_constraint=0.0, n_conn=(0, 0), p_grp=.3, p_excl=.3, p_conn_cond=.6, p_side_cond=0., p_grp_open=0., p_grp_twin=0., max_side=3, max_side_total=5,
-    n_dv=(0, 0), p_dv_cond=.6, p_dv_link=.0, p_dv_dup_label=0., p_dv_option=0., n_metric=(0, 0), p_metric_below_conn=0.,
+    n_dv=(0, 0), p_dv_cond=.6, p_dv_link=.0, p_dv_link2=0., p_dv_dup_label=0., p_dv_option=0., n_metric=(0, 0), p_metric_below_conn=0.,
     exotic=False, allow=(), forbid=(),
 )
 
@@ -234,7 +234,20 @@ def _grow(rnd, o):
                 n0 = len(nm[grp[0]]['options'])
                 for d in grp[1:]:
                     nm[d]['options'] = ['o%d' % i for i in range(n0)]
-            cons.append({'type': 'LINKED', 'choices': grp[:rnd.randint(2, len(grp))]})
+            if o['p_dv_link2'] > 0 and len(dvs) >= 4 and rnd.random() < o['p_dv_link2']:
+                # several LINKED groups of two, paired after a shuffle: their members usually INTERLEAVE in the order
+                # of the design-variable nodes (X1~X3, X2~X4), so "one variable per group" cannot be decided by
+                # looking at neighbours only (seeded change C16-k)
+                for kind in (disc, cont):
+                    kind = list(kind)
+                    rnd.shuffle(kind)
+                    while len(kind) >= 2:
+                        a, b = kind.pop(), kind.pop()
+                        if 'options' in nm[a]:
+                            nm[b]['options'] = ['o%d' % i for i in range(len(nm[a]['options']))]
+                        cons.append({'type': 'LINKED', 'choices': sorted([a, b])})
+            else:
+                cons.append({'type': 'LINKED', 'choices': grp[:rnd.randint(2, len(grp))]})
     for _ in range(rnd.randint(*o['n_metric'])):
         m = new('metric', 'M', dir=rnd.choice([None, -1, 1]), ref=rnd.choice([None, 0.0, 2.5, -1.0]),
                 type=rnd.choice([None, None, 'OBJECTIVE', 'CONSTRAINT', 'NONE']))
